@@ -123,6 +123,8 @@ def work(args):
                 bad.append("server %s a connection (handler %s) for case %r" % ("created" if srv_conn else "did not create", "ran" if srv_conn else "did not run", case["name"]))
             if connected != want["client"]:
                 bad.append("client handshake %s for case %r: %s" % ("completed" if connected else "failed", case["name"], sess.connect_error))
+        if want is not None and not want["server"] and getattr(sess, "table_max", 0) != 0:
+            bad.append("a refused request left %d entr%s in the server's client table (case %r)" % (sess.table_max, "y" if sess.table_max == 1 else "ies", case["name"]))
         if srv_conn:
             # the handler observes exactly the ticket's user id
             pid_seen = sess.server_pid
